@@ -201,7 +201,21 @@ def apply_rules(text, rules, what=""):
         rx, repl, lo = r[0], r[1], r[2]
         hi = r[3] if len(r) > 3 else None
         flags = re.M | re.S
-        new, n = re.subn(rx, repl, text, flags=flags)
+        if len(r) > 4 and r[4] == "code":
+            # surface rule for code only: a match inside a string / character literal or a comment is left alone
+            # (the pattern word "nullptr" of a Token::Match literal is not the keyword nullptr)
+            mtext = mask(text)
+            cnt = [0]
+
+            def _code_only(mo, repl=repl, mtext=mtext, cnt=cnt):
+                if mtext[mo.start():mo.end()] != mo.group(0):
+                    return mo.group(0)
+                cnt[0] += 1
+                return repl(mo) if callable(repl) else mo.expand(repl)
+            new = re.sub(rx, _code_only, text, flags=flags)
+            n = cnt[0]
+        else:
+            new, n = re.subn(rx, repl, text, flags=flags)
         if n < lo or (hi is not None and n > hi):
             raise ExtractError("%s: rule /%s/ fired %d times (need %s..%s)" % (what, rx, n, lo, hi if hi is not None else "inf"))
         fired.append((rx, n))
@@ -217,11 +231,11 @@ GENERIC = [
     (r'\bstd::(u?int(?:8|16|32|64)_t)\b', r'\1', 0),
     (r'\bstd::size_t\b', 'size_t', 0),
     (r'\bstd::(isdigit|isxdigit|isalpha|isalnum|isprint|isspace|isupper|islower|tolower|toupper|strchr|strlen|strcmp|strncmp|memchr|abs)\b', r'\1', 0),
-    (r'\bnullptr\b', 'NULL', 0),
-    (r'\bnonneg\b', '', 0),
+    (r'\bnullptr\b', 'NULL', 0, None, "code"),
+    (r'\bnonneg\b', '', 0, None, "code"),
     (r'\bstatic_cast<\s*([^<>]+?)\s*>\s*\(', r'(\1)(', 0),
-    (r'\bconstexpr\b', 'const', 0),
-    (r'\bnoexcept\b', '', 0),
+    (r'\bconstexpr\b', 'const', 0, None, "code"),
+    (r'\bnoexcept\b', '', 0, None, "code"),
     (r'\[\[maybe_unused\]\]', '', 0),
 ]
 
